@@ -480,7 +480,7 @@ impl ToBitStream for TrackCDDA {
 }
 
 /// A non-CD-DA CUESHEET track
-pub type TrackNonCDDA = Track<u64, NonZero<u8>, IndexVec<256, u64>>;
+pub type TrackNonCDDA = Track<u64, NonZero<u8>, IndexVec<255, u64>>;
 
 impl FromBitStream for TrackNonCDDA {
     type Error = Error;
@@ -747,7 +747,7 @@ impl ToBitStream for Index<u64> {
 /// `MAX` is the maximum number of index points
 /// this can hold, including the first.
 /// This is 100 for CD-DA (`00` to `99`, inclusive)
-/// and 254 for non-CD-DA cuesheets.
+/// and 255 for non-CD-DA cuesheets (the count is stored in 8 bits).
 #[derive(Clone, Debug, Eq, PartialEq)]
 pub struct IndexVec<const MAX: usize, O: Adjacent> {
     // pre-gap
